@@ -78,6 +78,8 @@ def main(argv):
     ctx.prog = prog
     for pr in prog.stats.get('coverage_problems', []):
         ctx.warn('coverage', 'driver/instantiate.cpp', pr)
+    for note in getattr(prog, 'field_alias_notes', []):
+        ctx.assume('renamed data member: ' + note)
     ctx.assume('clang 14 front end (name resolution, template instantiation, JSON AST dump) is correct')
     ctx.assume('real arithmetic for finite operands (no overflow/underflow); IEEE-754 '
                'classification for NaN and infinities')
